@@ -22,6 +22,7 @@ families carries the same rounding-level comparison against the centred float64 
 """
 from __future__ import annotations
 
+import contextlib
 import math
 import pickle
 from datetime import datetime
@@ -34,7 +35,13 @@ from verif.oracles import c18_mmae as orc
 
 import resonaate.estimation.adaptive.adaptive_filter as afm
 from resonaate.agents.estimate_agent import EstimateAgent
+from resonaate.common.labels import SensorLabel
+from resonaate.data.agent import AgentModel
+from resonaate.data.ephemeris import EstimateEphemeris
+from resonaate.data.epoch import Epoch
+from resonaate.data.observation import Observation
 from resonaate.dynamics.dynamics_base import Dynamics
+from resonaate.dynamics.two_body import TwoBody
 from resonaate.estimation import adaptiveEstimationFactory
 from resonaate.estimation.adaptive.adaptive_filter import AdaptiveFilter
 from resonaate.estimation.adaptive.gpb1 import GeneralizedPseudoBayesian1
@@ -47,6 +54,7 @@ from resonaate.estimation.sequential_filter import EstimateSource, FilterFlag
 from resonaate.parallel.estimate_prediction import EstPredictRegistration, asyncPredict
 from resonaate.parallel.estimate_update import EstUpdateRegistration, asyncUpdateEstimate
 from resonaate.physics.measurements import IsAngle, Measurement
+from resonaate.physics.time.conversions import julianDateToDatetime
 from resonaate.physics.time.stardate import JulianDate, ScenarioTime
 from resonaate.scenario.clock import ScenarioClock
 from resonaate.scenario.config.estimation_config import GPB1AdaptiveEstimationConfig, SMMAdaptiveEstimationConfig
@@ -161,7 +169,7 @@ MAG_WEIGHTS = ["uniform", "graded", "dominant"]  # probabilities the filter hold
 MAG_SYMBOLS = ["A", "M", "G", "0"]
 MU_EARTH = 398600.4418
 
-HARNESS = {"hyp": None, "n": None}
+HARNESS = {"hyp": None, "n": None, "created": None}
 
 
 # ------------------------------------------------------------------------------------------------ harness seams
@@ -193,12 +201,20 @@ def _hyp_states(self, nominal_states, maneuvers, maneuver_times):  # noqa: ARG00
 
 
 _REAL_CREATE = AdaptiveFilter._createModels  # noqa: SLF001
+# the real hypothesis machinery (database queries, Lambert targeting, initial pruning): switched back in by the
+# "dbinit" family only (see _real_hypotheses)
+_REAL_FETCH = afm.fetchObservationsByJDInterval
+_REAL_HYP = {name: getattr(AdaptiveFilter, name) for name in
+             ("_calculateNominalStates", "_generateHypothesisManeuvers", "_generateHypothesisStates", "_initialPruning")}
 
 
 def _create_and_tag(self, hypothesis_states):
     models = _REAL_CREATE(self, hypothesis_states)
     for i, m in enumerate(models):
         m.verif_tag = i
+    # pass-through record for the dbinit family: the states the models were created from and the model objects
+    # themselves (they are updated in place; models pruned later stay reachable here)
+    HARNESS["created"] = (np.array(hypothesis_states, dtype=float, copy=True), list(models))
     return models
 
 
@@ -211,6 +227,36 @@ def _install_seams():
 
 
 _install_seams()
+
+
+@contextlib.contextmanager
+def _real_hypotheses(record):
+    """Inside this block initialize() is the library's own, end to end: the real observation / estimate queries, the
+    real nominal states, Lambert manoeuvres, hypothesis propagation and initial pruning.  _initialPruning runs through
+    a pass-through probe that copies its inputs and its output into ``record``.  The seams are re-installed on exit
+    (the worker goes on to run items of the other families)."""
+    real_pruning = _REAL_HYP["_initialPruning"]
+
+    def _pruning_probe(self, maneuvers, crashed_indices, hypothesis_states):
+        before = {"maneuvers": np.array(maneuvers, dtype=float, copy=True),
+                  "crashed": [int(i) for i in np.asarray(crashed_indices).ravel()],
+                  "states_in": np.array(hypothesis_states, dtype=float, copy=True),
+                  "num_models_in": int(self.num_models)}
+        out = real_pruning(self, maneuvers, crashed_indices, hypothesis_states)
+        before["states_out"] = np.array(out, dtype=float, copy=True)
+        before["num_models_out"] = int(self.num_models)
+        record["pruning"] = before
+        return out
+
+    afm.fetchObservationsByJDInterval = _REAL_FETCH
+    for name, fn in _REAL_HYP.items():
+        setattr(AdaptiveFilter, name, fn)
+    AdaptiveFilter._initialPruning = _pruning_probe  # noqa: SLF001
+    try:
+        yield
+    finally:
+        AdaptiveFilter._initialPruning = real_pruning  # noqa: SLF001
+        _install_seams()
 
 
 def worker_init():
@@ -596,6 +642,7 @@ def mag_prior(name, n, rot):
 def items(tier, seed):
     out = [("tree", c) for c in configs(tier, seed)]
     out += [("tree", c) for c in mag_configs(tier, seed)]
+    out += [("dbinit", c) for c in dbinit_configs(tier, seed)]
     out.append(("stacking", seed))
     out.append(("mixmatrix", seed))
     return out
@@ -1550,7 +1597,7 @@ def explore_agent(res, cfg, item):
 
 
 # ------------------------------------------------------------------------------------------------ magnitude family
-def _moments_case(ctx, sub, got_x, got_p, w, xs, ps, nontrivial_ref):
+def _moments_case(ctx, sub, got_x, got_p, w, xs, ps, nontrivial_ref, prefix="magnitude", nt_fixed=None):
     """Combined mean / covariance against the EXACT moment-matched mixture of the real models (rational arithmetic),
     with the element-wise rounding allowance of a centred float64 evaluation (orc.mixture_tolerance: eps * B * (n + 2)
     with B ~ |P| + spread^2 - never eps |x|^2), plus symmetry and positive semi-definiteness at that level."""
@@ -1562,20 +1609,22 @@ def _moments_case(ctx, sub, got_x, got_p, w, xs, ps, nontrivial_ref):
     # the largest state component is >= 100 x the allowance of the matching diagonal element
     i_top = int(np.argmax(np.abs(mx)))
     nt = bool(float(np.finfo(float).eps) * mx[i_top] ** 2 >= 100.0 * tol_p[i_top, i_top]) and nontrivial_ref
+    if nt_fixed is not None:  # (dbinit family: non-trivial iff the initial pruning removed a hypothesis)
+        nt = bool(nt_fixed)
     if got_x is not None:
         gx = np.asarray(got_x, dtype=float)
         ok = gx.shape == mx.shape and bool(np.all(np.isfinite(gx))) and bool(np.all(np.abs(gx - mx) <= tol_x + tiny))
-        ctx.case(f"magnitude/{sub}/mean", ok, sig=f"magnitude/{sub}/mean", extra=extra, nontrivial=nt,
+        ctx.case(f"{prefix}/{sub}/mean", ok, sig=f"{prefix}/{sub}/mean", extra=extra, nontrivial=nt,
                  observed=_brief(gx), expected={"mean": _brief(mx), "allowance": _brief(tol_x)})
     gp = np.asarray(got_p, dtype=float)
     if gp.shape != mp.shape or not np.all(np.isfinite(gp)):
-        ctx.case(f"magnitude/{sub}/covariance", False, sig=f"magnitude/{sub}/covariance", extra=extra, nontrivial=nt,
+        ctx.case(f"{prefix}/{sub}/covariance", False, sig=f"{prefix}/{sub}/covariance", extra=extra, nontrivial=nt,
                  observed=_brief(gp), expected=_brief(mp))
         return
     excess = np.abs(gp - mp) / (tol_p + tiny)
     i, j = np.unravel_index(int(np.argmax(excess)), excess.shape)
     ok = bool(excess[i, j] <= 1.0)
-    ctx.case(f"magnitude/{sub}/covariance", ok, sig=f"magnitude/{sub}/covariance", extra=extra, nontrivial=nt,
+    ctx.case(f"{prefix}/{sub}/covariance", ok, sig=f"{prefix}/{sub}/covariance", extra=extra, nontrivial=nt,
              observed={"element": [int(i), int(j)], "value": float(gp[i, j]), "error_over_allowance": float(excess[i, j]),
                        "relative_deviation": float(np.max(np.abs(gp - mp)) / max(float(np.max(np.abs(mp))), tiny))},
              expected={"value": float(mp[i, j]), "allowance": float(tol_p[i, j])},
@@ -1589,7 +1638,7 @@ def _moments_case(ctx, sub, got_x, got_p, w, xs, ps, nontrivial_ref):
     lam_ref = float(np.min(np.linalg.eigvalsh(0.5 * (mp + mp.T))))
     slack = float(np.linalg.norm(tol_p)) + 32.0 * eps * float(np.linalg.norm(mp))
     ok_s = bool(np.all(asym <= tiny)) and lam >= min(0.0, lam_ref) - slack
-    ctx.case(f"magnitude/{sub}/symmetric_psd", ok_s, sig=f"magnitude/{sub}/symmetric_psd", extra=extra, nontrivial=nt,
+    ctx.case(f"{prefix}/{sub}/symmetric_psd", ok_s, sig=f"{prefix}/{sub}/symmetric_psd", extra=extra, nontrivial=nt,
              observed={"lambda_min": lam, "asymmetry": float(np.max(np.abs(gp - gp.T)))},
              expected={"lambda_min_of_mixture": lam_ref, "slack": slack})
     ctx.res.observe(gp)
@@ -1723,6 +1772,337 @@ def explore_mag(res, cfg, item):
         recurse(drv0.dump(), [], T_START)
 
 
+# ------------------------------------------------------------------------------------------------ dbinit family
+# The real initialize() over a real (in-memory) RESONAATE database: previous observation and stored estimates are read
+# back by the library's own queries, the manoeuvre hypotheses come from the library's own Lambert targeting on real
+# two-body dynamics and pass through the library's own initial pruning (delta-v cap 0.981 km/s, Earth impact).
+DB_JD0 = 2459304.0
+DB_T_PRIOR = 300.0  # scenario time of the previous (stored) observation
+DB_X_PRIOR = np.array([-948.311943, 750.624874, 6767.19073, 7.46101124, 1.20802706, 0.911776855])  # LEO, r = 6874 km
+DB_SITE = np.array([-1.55267475e03, 1.47362430e03, 5.98812597e03])  # ground site (ECI at DB_T_PRIOR), r = 6358 km
+DB_SENSOR = 100001
+DB_OMEGA = 7.292115e-5  # rad/s, only to give the site a plausible ECI velocity
+DB_DV_CAP = 0.981  # km/s, the documented feasibility limit of a hypothesis
+# (model interval, scenario step, gap between the previous observation and the detection) in seconds: the model time
+# step is min(model interval, scenario step), the number of hypotheses ceil(gap / step) + 1.  (30, 60, .): the maneuver
+# times fall BETWEEN the stored estimates (bulk propagation of the nominal states)
+DB_TIMINGS = [(30, 60, 300), (60, 60, 600), (60, 60, 180), (120, 120, 720)]
+DB_TIMINGS_T = DB_TIMINGS + [(60, 60, 1200), (20, 60, 240), (120, 60, 360)]
+# intended effect of the initial pruning: hypothesis i (i >= 1) manoeuvres tau_i = step, 2 step, .., gap seconds before
+# the detection and needs about jump / tau_i, so a position jump of 0.981 (k + 0.5) step km makes the k latest
+# hypotheses infeasible; "all_but_one": jump = 1.3 x 0.981 x gap leaves only the no-manoeuvre hypothesis
+DB_CLASSES = ["none", "one", "several", "all_but_one"]
+DB_OBS_SETS = {"o": "o", "oo": "oo", "r": "r", "ro": "ro", "or": "or"}  # o = optical (az, el), r = radar (+ range, range rate)
+DB_OBS_SETS_T = dict(DB_OBS_SETS, rr="rr", oro="oro")
+DB_R_OPTICAL = [2.5e-9, 2.5e-9]  # rad^2 (10 arcsec)
+DB_R_RADAR = [1e-8, 1e-8, 1e-4, 1e-8]  # rad^2, rad^2, km^2 (10 m), (km/s)^2 (10 cm/s)
+_DB_DYN = TwoBody()
+
+
+def dbinit_configs(tier, seed):
+    out = []
+    quick = tier == "quick"
+    k = 0
+    for kind in KINDS:
+        for mi, dt, gap in (DB_TIMINGS if quick else DB_TIMINGS_T):
+            for cls in DB_CLASSES:
+                k += 1
+                # prune threshold of the first update: the default and one that prunes again right after the start
+                thrs = [1e-20] if kind == "gpb1" else [[1e-20, 0.05][k % 2]] if quick else [1e-20, 0.05]
+                for thr in thrs:
+                    out.append({"kind": kind, "mi": mi, "dt": dt, "gap": gap, "cls": cls, "thr": thr, "pp": 0.997,
+                                "mix": 1.5, "seed": seed, "sets": sorted(DB_OBS_SETS if quick else DB_OBS_SETS_T)})
+    return out
+
+
+def _db_counts(cfg):
+    step = min(cfg["mi"], cfg["dt"])
+    n = int(math.ceil(cfg["gap"] / step)) + 1
+    k = {"none": 0, "one": 1, "several": 2 if n <= 4 else 3, "all_but_one": n - 1}[cfg["cls"]]
+    if cfg["cls"] == "all_but_one":
+        jump = 1.3 * DB_DV_CAP * cfg["gap"]
+    else:
+        jump = DB_DV_CAP * (k + 0.5) * step
+    return step, n, k, jump
+
+
+def _db_site(j, t):
+    """ECI state of ground site j (sites 8 degrees of longitude apart) at scenario time t: rotation about the pole."""
+    a = math.radians(8.0) * j + DB_OMEGA * (t - DB_T_PRIOR)
+    c, s_ = math.cos(a), math.sin(a)
+    r = np.array([c * DB_SITE[0] - s_ * DB_SITE[1], s_ * DB_SITE[0] + c * DB_SITE[1], DB_SITE[2]])
+    v = DB_OMEGA * np.array([-r[1], r[0], 0.0])
+    return np.concatenate([r, v])
+
+
+def _db_jd(t):
+    return JulianDate(DB_JD0 + t / 86400.0)
+
+
+def _db_observations(letters, t, truth):
+    obs, ydim = [], 0
+    for j, letter in enumerate(letters):
+        if letter == "o":
+            meas = Measurement.fromMeasurementLabels(["azimuth_rad", "elevation_rad"], np.diagflat(DB_R_OPTICAL))
+            stype = SensorLabel.OPTICAL
+        else:
+            meas = Measurement.fromMeasurementLabels(RADAR_LABELS, np.diagflat(DB_R_RADAR))
+            stype = SensorLabel.ADV_RADAR
+        ydim += len(meas.labels)
+        obs.append(Observation.fromMeasurement(epoch_jd=_db_jd(t), target_id=TGT, tgt_eci_state=truth,
+                                               sensor_id=DB_SENSOR + j, sensor_eci=_db_site(j, t), sensor_type=stype,
+                                               measurement=meas, noisy=False))
+    return obs, ydim
+
+
+def _db_world(cfg):
+    """Fresh in-memory database holding what a running scenario would have stored before the detection step (agents,
+    epochs, one estimate per scenario step since the previous observation, the previous observation), and the state
+    the nominal filter holds at the detection: the nominal trajectory displaced by the jump (as a burn 30 s after the
+    previous observation would), plus a 1 km-level estimation error so that no innovation is exactly zero."""
+    from resonaate.data import getDBConnection  # noqa: PLC0415
+
+    worker_init()
+    step, n, k, jump = _db_counts(cfg)
+    dt, gap, seed = cfg["dt"], cfg["gap"], cfg["seed"]
+    t_now = DB_T_PRIOR + gap
+    times = [DB_T_PRIOR + i * dt for i in range(int(math.ceil(gap / dt)))]
+    nominal = {times[0]: DB_X_PRIOR.copy()}
+    for a, b in zip(times[:-1], times[1:]):
+        nominal[b] = _DB_DYN.propagate(a, b, nominal[a])
+    nominal_now = _DB_DYN.propagate(times[-1], t_now, nominal[times[-1]])
+    az = 0.35 + 0.11 * (seed % 17)
+    el = 0.2 + 0.07 * (seed % 13)
+    d = np.array([math.cos(az) * math.cos(el), math.sin(az) * math.cos(el), math.sin(el)])
+    truth = nominal_now + np.concatenate([jump * d, jump / (gap - 30.0) * d])
+    err = np.array([0.8, -0.5, 0.6, 2e-3, -1e-3, 1.5e-3])
+    rows = [AgentModel(unique_id=TGT, name="rso")]
+    rows += [AgentModel(unique_id=DB_SENSOR + j, name=f"sensor{j}") for j in range(3)]
+    for t in [*times, t_now]:
+        rows.append(Epoch(julian_date=float(_db_jd(t)), timestampISO=julianDateToDatetime(_db_jd(t)).isoformat()))
+    for t in times:
+        rows.append(EstimateEphemeris.fromCovarianceMatrix(
+            julian_date=float(_db_jd(t)), agent_id=TGT, source="Observation" if t == DB_T_PRIOR else "Propagation",
+            covariance=(1e-2 * np.eye(6)).tolist(), eci=nominal[t].tolist()))
+    rows.append(_db_observations("o", DB_T_PRIOR, DB_X_PRIOR)[0][0])
+    getDBConnection().insertData(*rows)
+    p0 = np.diagflat([1.0, 1.5, 0.8, 1e-4, 2e-4, 1.5e-4])
+    flt = UnscentedKalmanFilter(TGT, ScenarioTime(t_now), truth + err, p0, _DB_DYN, 1e-10 * np.eye(6), StandardNis(0.01),
+                                False, True)
+    return {"t_now": t_now, "truth": truth, "filter": flt, "step": step, "n": n, "k": k, "jump": jump}
+
+
+def _db_preweight(obs, models):
+    """Documented SMM pre-weighting on real observations: |1 - e_i / sum(e)| from the LAST observation that carries a
+    range rate; the models' predicted range rates come from the observation's own measurement function (sensor
+    pipeline: C02).  None when no observation carries one."""
+    out = None
+    for ob in obs:
+        measured = getattr(ob, "range_rate_km_p_sec", None)
+        if not measured:
+            continue
+        utc = julianDateToDatetime(JulianDate(ob.julian_date))
+        errs = np.array([abs(measured - float(ob.measurement.calculateMeasurement(ob.sensor_eci, m.pred_x, utc)["range_rate_km_p_sec"]))
+                         for m in models])
+        out = np.abs(1.0 - errs / np.sum(errs))
+    return out
+
+
+def _db_post_update(ctx, stage, prior_w, prior_mu, held, af, ydim, nt):
+    """After the update of ``stage`` ("initialize" | "update"): one probability per model, probabilities valid, Bayes'
+    rule from the models' own NIS / innovation covariances, survivors, moment-matched output (exact mixture), closure
+    and the filter handed back.  ``held`` = the models before the update (same objects, updated in place).  Returns
+    True when the history ends here."""
+    cfg = ctx.cfg
+    models = _models_of(af)
+    tags = [getattr(m, "verif_tag", None) for m in models]
+    w = np.asarray(af.model_weights, dtype=float)
+    mu = np.asarray(af.mode_probabilities, dtype=float)
+    lik = np.asarray(af.model_likelihoods, dtype=float)
+    ok_len = len(models) >= 1 and w.ndim == 1 and len(w) == len(models) == len(lik) == len(mu) == af.num_models
+    ctx.case(f"dbinit/{stage}/one_probability_per_model", ok_len, nontrivial=nt,
+             observed={"models": len(models), "weights": len(w), "likelihoods": len(lik), "mode_probabilities": len(mu),
+                       "num_models": af.num_models}, expected=">= 1 model, every per-model array of that length")
+    okw = _valid_prob(w)
+    ctx.case(f"dbinit/{stage}/weights_valid", okw, nontrivial=nt, observed={"w": _brief(w), "sum": float(np.sum(w)) if w.size else None},
+             expected="finite, >= 0, sum = 1 (1e-12)")
+    if cfg["kind"] == "gpb1":
+        ctx.case(f"dbinit/{stage}/mode_probabilities_valid", _valid_prob(mu), nontrivial=nt, observed=_brief(mu),
+                 expected="finite, >= 0, sum = 1 (1e-12)")
+    if not (ok_len and okw):
+        return True
+    held_tags = [m.verif_tag for m in held]
+    # log N(nu; 0, S) from each model's own NIS and innovation covariance (the per-model filter is C06's subject)
+    loglik = [-0.5 * float(m.nis) - 0.5 * (ydim * math.log(2.0 * math.pi) + float(np.linalg.slogdet(np.asarray(m.innov_cvr, dtype=float))[1]))
+              for m in held]
+    nis = [float(m.nis) for m in held]
+    if cfg["kind"] == "smm":
+        exp = orc.smm_step(prior_w, loglik, nis, ydim, cfg["thr"], cfg["pp"])
+    else:
+        exp = orc.gpb1_step(prior_mu, loglik, nis, ydim, cfg["pp"], cfg["mix"])
+    decided = not exp["boundary"] and not exp["prune_all"]
+    if not decided:
+        ctx.res.either_way += 1
+    else:
+        want_tags = [held_tags[i] for i in exp["survivors"]]
+        want_w = exp["w_final"]
+        ok_b = tags == want_tags and _wclose(w, want_w)
+        ctx.case(f"dbinit/{stage}/weights_bayes", ok_b, nontrivial=nt, observed={"tags": tags, "w": _brief(w)},
+                 expected={"tags": want_tags, "w": _brief(want_w)},
+                 outcome=stage + ":" + ("reset" if exp["reset"] else "regular") + ("+pruned" if exp["pruned"] else "") + "+" + exp["reason"])
+        if not ok_b:
+            return True
+        if cfg["kind"] == "gpb1":
+            ctx.case(f"dbinit/{stage}/gpb1_mixing", _wclose(mu, exp["mu_next"]), nontrivial=nt, observed=_brief(mu),
+                     expected=_brief(exp["mu_next"]))
+    _moments_case(ctx, f"{stage}_estimate", af.est_x, af.est_p, w, [m.est_x for m in models], [m.est_p for m in models], True,
+                  prefix="dbinit", nt_fixed=nt)
+    _moments_case(ctx, f"{stage}_prediction", af.pred_x, af.pred_p, w, [m.pred_x for m in models], [m.pred_p for m in models], True,
+                  prefix="dbinit", nt_fixed=nt)
+    closed = CLOSE in af.flags or af.converged_filter is not None
+    if decided:
+        ok_c = closed == exp["closed"] and (af.converged_filter is not None) == exp["closed"] and (CLOSE in af.flags) == exp["closed"]
+        ctx.case(f"dbinit/{stage}/closure_decision", ok_c, nontrivial=nt, observed={"closed": closed, "flags": str(af.flags)},
+                 expected={"closed": exp["closed"], "reason": exp["reason"], "gate": exp["gate"]})
+    if closed and af.converged_filter is not None:
+        cf = af.converged_filter
+        if cfg["kind"] == "smm":
+            ctx.case(f"dbinit/{stage}/one_survivor", len(models) == 1, nontrivial=nt, observed=len(models), expected=1)
+        _moments_case(ctx, f"{stage}_handed_back", cf.est_x, cf.est_p, w, [m.est_x for m in models], [m.est_p for m in models], True,
+                      prefix="dbinit", nt_fixed=nt)
+    return closed
+
+
+def _dbinit_case(res, cfg, set_name, item):
+    world = _db_world(cfg)
+    step, n, t_now = world["step"], world["n"], world["t_now"]
+    letters = DB_OBS_SETS_T[set_name]
+    ccfg = {"kind": cfg["kind"], "n": n, "layout": "lambert", "thr": cfg["thr"], "pp": cfg["pp"], "cov": "same",
+            "resample": False, "mode": "dbinit", "mix": cfg["mix"]}
+    ctx = Ctx(res, ccfg, item)
+    ctx.base.update({"model_interval": cfg["mi"], "scenario_step": cfg["dt"], "gap_s": cfg["gap"], "pruning_class": cfg["cls"],
+                     "jump_km": round(world["jump"], 3)})
+    ctx.hist = [set_name]
+    ctx.obs_set = set_name
+    obs, ydim = _db_observations(letters, t_now, world["truth"])
+    if cfg["kind"] == "smm":
+        mm = SMMAdaptiveEstimationConfig(name="smm", model_interval=cfg["mi"], observation_window=1,
+                                         prune_threshold=cfg["thr"], prune_percentage=cfg["pp"])
+    else:
+        mm = GPB1AdaptiveEstimationConfig(name="gpb1", model_interval=cfg["mi"], observation_window=1,
+                                          prune_threshold=cfg["thr"], prune_percentage=cfg["pp"], mix_ratio=cfg["mix"])
+    record, exc, started, af = {}, None, None, None
+    HARNESS["created"] = None
+    with _real_hypotheses(record):
+        af = adaptiveEstimationFactory(mm, world["filter"], ScenarioTime(cfg["dt"]))
+        try:
+            started = af.initialize(obs, JulianDate(DB_JD0))
+        except Exception as e:  # noqa: BLE001
+            exc = e
+    res.transitions += 1
+    pr = record.get("pruning")
+    created = HARNESS["created"]
+    # ---- what the initial pruning must keep, from the delta-v hypotheses it was handed (own norm, own comparison)
+    keep, edge, n_in = None, False, None
+    if pr is not None:
+        n_in = len(pr["maneuvers"])
+        mags = [math.sqrt(sum(float(c) ** 2 for c in row)) for row in pr["maneuvers"]]
+        edge = any(abs(v - DB_DV_CAP) <= 1e-9 for v in mags)
+        keep = [i for i, v in enumerate(mags) if not v > DB_DV_CAP and i not in pr["crashed"]]
+    nt = bool(keep is not None and len(keep) < n_in)
+    removed = None if keep is None else n_in - len(keep)
+    extra = {"hypotheses": n_in, "removed_by_initial_pruning": removed}
+    ctx.base.update(extra)
+    label = f"{n_in}->{None if keep is None else len(keep)}"
+    if exc is not None:
+        lens = {"models": len(af.models), "weights": int(np.size(af.model_weights)), "num_models": af.num_models}
+        if len(af.models) and np.size(af.model_weights):
+            lens["sum_over_models"] = float(np.sum(np.asarray(af.model_weights, dtype=float)[:len(af.models)]))
+        ctx.case("dbinit/initialize/raises", False, sig="dbinit/initialize/raises/" + type(exc).__name__, nontrivial=True,
+                 observed={"exception": f"{type(exc).__name__}: {exc}"[:300], "left_behind": lens},
+                 expected="initialize() over a database that holds the previous observation and the estimates starts MMAE",
+                 outcome="raises:" + label)
+        if lens["weights"] != lens["models"]:
+            ctx.case("dbinit/initialize/one_probability_per_model", False, nontrivial=True, observed=lens,
+                     expected="one probability per surviving hypothesis")
+        res.traces += 1
+        return
+    ok_start = bool(started) and pr is not None and created is not None
+    ctx.case("dbinit/initialize/starts", ok_start, nontrivial=nt, observed={"started": started, "pruning_reached": pr is not None},
+             expected="MMAE starts (previous observation stored, >= 2 hypotheses)", outcome=label)
+    if not ok_start:
+        res.traces += 1
+        return
+    ok_n = n_in == n == pr["num_models_in"] and float(af.time) == t_now and float(af.mmae_antecedent_time) == t_now - step
+    ctx.case("dbinit/initialize/hypothesis_count", ok_n, nontrivial=nt,
+             observed={"hypotheses": n_in, "time": float(af.time), "antecedent": float(af.mmae_antecedent_time)},
+             expected={"hypotheses": n, "time": t_now, "antecedent": t_now - step})
+    states, held = created
+    if edge:
+        res.either_way += 1
+    else:
+        ok_k = (len(held) == len(keep) == pr["num_models_out"] and states.shape == (len(keep), 6)
+                and np.array_equal(states, pr["states_in"][keep]))
+        ctx.case("dbinit/initialize/feasible_hypotheses_kept", ok_k, nontrivial=nt,
+                 observed={"models_created": len(held), "num_models": pr["num_models_out"]},
+                 expected={"kept": keep, "rule": "delta-v <= 0.981 km/s and no Earth impact"})
+        if not ok_k:
+            res.traces += 1
+            return
+    m = len(held)
+    prior_w = np.ones(m) / m
+    if cfg["kind"] == "smm":
+        pw = _db_preweight(obs, held)
+        if pw is not None:
+            prior_w = pw
+    closed = _db_post_update(ctx, "initialize", prior_w, np.ones(m) / m, held, af, ydim, nt)
+    res.states += 1
+    res.observe(af.model_weights, af.est_x, af.est_p)
+    if closed:
+        res.traces += 1
+        return
+    # ---- one more scenario step: predict, then the same observation set of the propagated truth
+    t2 = t_now + cfg["dt"]
+    ctx.hist = [set_name, set_name]
+    held = list(af.models)
+    pre_tags = [mdl.verif_tag for mdl in held]
+    pre_w = np.array(af.model_weights, dtype=float, copy=True)
+    pre_mu = np.array(af.mode_probabilities, dtype=float, copy=True)
+    try:
+        af.predict(ScenarioTime(t2))
+    except Exception as e:  # noqa: BLE001
+        ctx.case("dbinit/predict/raises", False, sig="dbinit/predict/raises/" + type(e).__name__, nontrivial=nt,
+                 observed=f"{type(e).__name__}: {e}"[:300], expected="predict does not raise")
+        res.traces += 1
+        return
+    models = _models_of(af)
+    ok_book = ([mdl.verif_tag for mdl in models] == pre_tags and float(af.time) == t2 and np.array_equal(af.model_weights, pre_w)
+               and all(float(mdl.time) == t2 for mdl in models))
+    ctx.case("dbinit/predict/bookkeeping", ok_book, nontrivial=nt, observed={"n": len(models), "time": float(af.time)},
+             expected={"n": len(pre_tags), "time": t2})
+    if ok_book:
+        _moments_case(ctx, "predict", af.pred_x, af.pred_p, pre_w, [mdl.pred_x for mdl in models], [mdl.pred_p for mdl in models], True,
+                      prefix="dbinit", nt_fixed=nt)
+        obs2, ydim2 = _db_observations(letters, t2, _DB_DYN.propagate(t_now, t2, world["truth"]))
+        try:
+            af.update(obs2)
+        except Exception as e:  # noqa: BLE001
+            ctx.case("dbinit/update/raises", False, sig="dbinit/update/raises/" + type(e).__name__, nontrivial=nt,
+                     observed=f"{type(e).__name__}: {e}"[:300], expected="update does not raise")
+            res.traces += 1
+            return
+        _db_post_update(ctx, "update", pre_w, pre_mu, held, af, ydim2, nt)
+        res.observe(af.model_weights, af.est_x)
+    res.transitions += 1
+    res.states += 1
+    res.traces += 1
+
+
+def run_dbinit(res, cfg, item):
+    for set_name in cfg["sets"]:
+        _dbinit_case(res, cfg, set_name, item)
+
+
 # ------------------------------------------------------------------------------------------------ small lattices
 class _M:
     def __init__(self, px, ex):
@@ -1804,6 +2184,11 @@ def run_item(item):
             explore_mag(res, cfg, ("tree", cfg))
         else:
             explore_agent(res, cfg, ("tree", cfg))
+        res.observe(res.evaluations, res.states, res.transitions, res.traces, sorted(res.outcomes.items()))
+    elif kind == "dbinit":
+        cfg = dict(item[1])
+        cfg["sets"] = list(cfg["sets"])
+        run_dbinit(res, cfg, ("dbinit", cfg))
         res.observe(res.evaluations, res.states, res.transitions, res.traces, sorted(res.outcomes.items()))
     elif kind == "stacking":
         run_stacking(res, item)
